@@ -30,8 +30,10 @@ cd ..
 # extracted checkers (OCaml)
 NMFU_VERIF=1 PYTHONPATH=/repo:harness /venv/bin/python -c "
 import sys; sys.path.insert(0,'harness')
-import mach
+import mach, refsem
 e = mach.ensure_machk()
 print('machk:', e or 'ok')
-sys.exit(1 if e else 0)"
+e2 = refsem.ensure_refk()
+print('refk:', e2 or 'ok')
+sys.exit(1 if (e or e2) else 0)"
 echo "setup done"
